@@ -389,10 +389,21 @@ func (p *podAssignCache) OnUpdate(oldObj, newObj interface{}) {
 	case util.IsPodTerminated(pod): // pod has nodeName & pod become terminated
 		p.unAssign(pod.Spec.NodeName, pod)
 	case !reflect.DeepEqual(&pod.Spec, &oldPodInfo.pod.Spec) ||
-		!reflect.DeepEqual(pod.Status.Conditions, oldPodInfo.pod.Status.Conditions):
+		!reflect.DeepEqual(pod.Status.Conditions, oldPodInfo.pod.Status.Conditions) ||
+		extension.GetPodPriorityClassWithDefault(pod) != extension.GetPodPriorityClassWithDefault(oldPodInfo.pod) ||
+		(p.args.AllowCustomizeEstimation && !equalCustomEstimation(pod, oldPodInfo.pod)):
 		// pod spec or pod conditions changed, renew cached pod
 		p.assign(pod.Spec.NodeName, pod)
 	}
+}
+
+func equalCustomEstimation(a, b *corev1.Pod) bool {
+	for _, k := range []string{extension.AnnotationCustomEstimatedScalingFactors, extension.AnnotationCustomEstimatedSecondsAfterPodScheduled, extension.AnnotationCustomEstimatedSecondsAfterInitialized} {
+		if a.Annotations[k] != b.Annotations[k] {
+			return false
+		}
+	}
+	return true
 }
 
 func (p *podAssignCache) OnDelete(obj interface{}) {
